@@ -322,10 +322,24 @@ Definition skey_ltb (l : option str) (lex : str) (l' : option str) (lex' : str) 
 Lemma string_not_integer : str_eqb xsd_string xsd_integer = false.
 Proof. vm_compute. reflexivity. Qed.
 
+(* a datatype IRI that sorts between xsd:boolean and xsd:string *)
+Definition between (d : str) : Prop := str_ltb xsd_boolean d = true /\ str_ltb d xsd_string = true.
+
+Lemma frag_int_between : forall d b, int_type_get d frag_int_types = Some b -> between d.
+Proof.
+  intros d b. unfold frag_int_types. induction int_value_types as [|[d' b'] r IH]; cbn [filter fst]; [discriminate|].
+  destruct (str_ltb xsd_boolean d' && str_ltb d' xsd_string) eqn:C; auto.
+  cbn [int_type_get]. destruct (str_eqb d d') eqn:E; auto.
+  intros _. apply str_eqb_eq in E. subst. apply andb_true_iff in C. exact C.
+Qed.
+
+Lemma decimal_between : between xsd_decimal.
+Proof. split; vm_compute; reflexivity. Qed.
+
 Lemma class_dt : forall lex dt lang,
   match lit_class lex dt lang with
   | CStr => dt = None \/ dt = Some xsd_string
-  | CNum _ _ => dt = Some xsd_integer \/ dt = Some xsd_decimal
+  | CNum _ _ => exists d, dt = Some d /\ between d
   | CBool _ => dt = Some xsd_boolean
   | COther => True
   end.
@@ -333,16 +347,17 @@ Proof.
   intros lex dt lang. unfold lit_class.
   destruct lang as [[|x l]|]; auto; destruct dt as [d|]; auto;
     (destruct (str_eqb d xsd_string) eqn:E1; [apply str_eqb_eq in E1; subst; auto|]);
-    (destruct (str_eqb d xsd_integer) eqn:E2; [apply str_eqb_eq in E2; subst; destruct (parse_int lex); auto|]);
-    (destruct (str_eqb d xsd_decimal) eqn:E4; [apply str_eqb_eq in E4; subst; destruct (parse_dec lex) as [[? ?]|]; auto|]);
+    (destruct (int_type_get d frag_int_types) as [b|] eqn:E2;
+      [destruct (parse_int lex); auto; destruct (in_bounds z b); auto; exists d; split; auto; eapply frag_int_between; eauto|]);
+    (destruct (str_eqb d xsd_decimal) eqn:E4;
+      [apply str_eqb_eq in E4; subst; destruct (parse_dec lex) as [[? ?]|]; auto; exists xsd_decimal; split; auto; apply decimal_between|]);
     (destruct (str_eqb d xsd_boolean) eqn:E3; [apply str_eqb_eq in E3; subst; destruct (parse_bool lex); auto|]); auto.
 Qed.
 
 Lemma class_str_dt : forall lex dt lang, lit_class lex dt lang = CStr -> dt = None \/ dt = Some xsd_string.
 Proof. intros lex dt lang H. pose proof (class_dt lex dt lang) as X. rewrite H in X. exact X. Qed.
 
-Lemma class_num_dt : forall lex dt lang m e, lit_class lex dt lang = CNum m e ->
-  dt = Some xsd_integer \/ dt = Some xsd_decimal.
+Lemma class_num_dt : forall lex dt lang m e, lit_class lex dt lang = CNum m e -> exists d, dt = Some d /\ between d.
 Proof. intros lex dt lang m e H. pose proof (class_dt lex dt lang) as X. rewrite H in X. exact X. Qed.
 
 Lemma class_bool_dt : forall lex dt lang b, lit_class lex dt lang = CBool b -> dt = Some xsd_boolean.
